@@ -586,6 +586,17 @@ pub fn open_loop(run: &mut Run, cfg: &SCfg, t0: u64, iters: usize, clears: bool,
             }
             Ok(Ok(())) => {}
         }
+        // C02 through the whole stack: a genuine quotation that the receive socket really delivered (readable, nothing
+        // else competing for this call) is recognised by the channel as a response from its sender
+        if let (Some((seq, from)), Dgram::Data(..), Poll::Yes) = (pl.answers, &pl.dgram, pl.readable) {
+            let tcp_first = cfg.proto == 't' && pl.env.iter().any(SockEnv::writable);
+            if !tcp_first && failed.is_none() {
+                match &spy.last_resp {
+                    Some(resp) if resp.data().addr == from => run.count("c02:stack-recognised"),
+                    other => run.fail("c02-stack-not-recognised", format!("{ctx} … {req}: a genuine answer to the probe with sequence {seq} from {from} was delivered, recv_probe returned {}", other.as_ref().map_or("nothing".to_string(), |r| format!("a response from {}", r.data().addr)))),
+                }
+            }
+        }
         // ground truth: a genuine datagram that was really handed over answers its probe
         if let (Some((seq, from)), Some(resp)) = (pl.answers, &spy.last_resp) {
             if resp.data().addr == from && truth.sent.get(&seq).is_some_and(|x| x.1 == 'o') {
@@ -697,6 +708,48 @@ fn foreign_tcp_time_exceeded(cfg: &SCfg, rng: &mut Rng) -> (IpAddr, Vec<u8>) {
     let (la, body) = icmp_body(false, &q, ExtMode::None, &[]);
     let icmp = icmp_message(&w, ty_te(false), 0, la, &body, from);
     (from, deliver(&w, &icmp, from, rng))
+}
+
+/// Implementation only (the model's clock only moves forward): a closed-loop run in which the wall clock steps
+/// backwards in some iterations — while TCP probes are outstanding (their age is `start.elapsed()`), in mid-round and
+/// across round boundaries.  The run must neither panic nor fail, and still ends after its rounds.
+pub fn closed_loop_clock_steps(run: &mut Run, cfg: &SCfg, t0: u64, rng: &mut Rng) {
+    crate::strategy::set_addr_num(true);
+    let ctx = cfg.new_line(t0);
+    clock::enable(t0);
+    simsock::reset();
+    simsock::set_default_writable(Poll::No);
+    let Ok(Ok(tracer)) = guarded(|| cfg.build()) else { clock::disable(); return };
+    let steps: Vec<(u64, u64)> = (0..6).map(|_| (rng.range(2, 60), *rng.pick(&[1u64, MS, cfg.grace + 1, cfg.tcp_timeout + 1, cfg.max_round + 1, 3_000 * MS]))).collect();
+    let steps_h = steps.clone();
+    let gave_up = Rc::new(RefCell::new(false));
+    let g2 = gave_up.clone();
+    simsock::set_readable_hook(Some(Box::new(move |n: u64| {
+        if n > 20_000 { *g2.borrow_mut() = true; return Poll::Fails; }
+        match steps_h.iter().find(|(k, _)| *k == n) {
+            Some((_, back)) => clock::set(clock::now_ns().saturating_sub(*back)),
+            None => clock::advance(7 * MS),
+        }
+        Poll::No
+    })));
+    crate::util::inflight(&format!("{ctx} | closed loop with backward clock steps {steps:?}"));
+    let rounds = Rc::new(RefCell::new(0usize));
+    let r2 = rounds.clone();
+    let r = guarded(|| tracer.verif_run_with::<SimSocket, _>(cfg.src, |_round: &Round<'_>| { *r2.borrow_mut() += 1; }));
+    simsock::set_readable_hook(None);
+    let what = format!("{ctx}: closed loop, clock advances 7 ms per iteration, stepped back at (iteration, ns) {steps:?}");
+    match r {
+        Err(loc) => run.fail("c09-stack-panic", format!("{what} ({loc})")),
+        Ok(Err(e)) if *gave_up.borrow() => run.fail("c09-stack-not-terminated", format!("{what}: {} rounds after 20000 iterations [{e}]", rounds.borrow())),
+        Ok(Err(e)) => run.fail("c09-stack-rounds", format!("{what}: the run failed [{e}] without a socket error")),
+        Ok(Ok(())) => {
+            if Some(*rounds.borrow()) != cfg.max_rounds { run.fail("c09-stack-rounds", format!("{what}: Ok(()) after {} rounds, limit {:?}", rounds.borrow(), cfg.max_rounds)); }
+            run.count("stack:clock-step-run-ok");
+        }
+    }
+    clock::disable();
+    simsock::reset();
+    crate::strategy::set_addr_num(false);
 }
 
 /// as `closed_loop`; with `noise` the receive socket is readable in every iteration and delivers that datagram
@@ -1171,6 +1224,15 @@ pub fn run(rng: &mut Rng, thorough: bool, _corpus: &[String]) -> Run {
         if cfg.build().is_ok() {
             run.count("directed:dublin-v6-long-run");
             closed_loop(&mut run, &cfg, rng.below(1000) * 1000, &[4 * MS], None);
+        }
+    }
+    // closed loop under a wall clock that steps backwards (implementation only)
+    for proto in ['t', 'i', 'u'] {
+        for v6 in [false, true] {
+            let mut cfg = gen_cfg(rng, proto, v6);
+            cfg.max_rounds = Some(5);
+            run.count("directed:closed-loop-clock-steps");
+            closed_loop_clock_steps(&mut run, &cfg, 10_000 * MS + rng.below(1000) * 1000, rng);
         }
     }
     // closed loop, TCP, a busy ICMP socket: in every iteration the receive socket delivers a Time Exceeded that
